@@ -65,6 +65,7 @@ def run(ctx):
         ctx.guard("layout-agreement", layout_agreement, ctx, crate, cx)
         ctx.guard("callback-table", callback_table_cxx, ctx, crate, cx)
         ctx.guard("alloc-symmetry", alloc_symmetry_cxx, ctx, crate, cx)
+        ctx.guard("alloc-symmetry", string_assignment, ctx, cx)
     ctx.guard("transmute-layout", transmute_layout, ctx, crate)
     ctx.guard("ffi-safe", ffi_safe, ctx, crate)
     ctx.guard("callback-table", callback_table_rust, ctx, crate, crs)
@@ -493,6 +494,32 @@ def alloc_symmetry_cxx(ctx, crate, cx):
         ctx.ob(R, "resolvo::Vector::%s" % name, "mutable-accessor-detaches", ok, "cpp/include/resolvo_vector.h",
                "the non-const accessor makes the shared buffer unique before handing out a mutable pointer / reference")
     ctx.floor(R, "mutable accessors of Vector", n_acc, 2)
+    # aliasing: push_back's argument may refer to an element of this very vector (`v.push_back(v[0])`, as std::vector allows).
+    # detach() can release the old buffer, so the parameter must not be read after it - it has to be copied / moved into a
+    # local first
+    for m in cxx.walk(rec, lambda n: n.get("kind") == "CXXMethodDecl" and n.get("name") == "push_back"):
+        body = [x for x in m.get("inner", []) if x.get("kind") == "CompoundStmt"]
+        if not body:
+            continue
+        params = [p_.get("name") for p_ in m.get("inner", []) if p_.get("kind") == "ParmVarDecl"]
+        stmts = [x for x in body[0].get("inner", []) if isinstance(x, dict)]
+        det_idx = None
+        last_use = None
+        for k, st in enumerate(stmts):
+            names_ = [x.get("member") or x.get("name") or (x.get("referencedDecl") or {}).get("name")
+                      for x in cxx.walk(st, lambda n: n.get("kind") in ("MemberExpr", "UnresolvedMemberExpr", "CXXDependentScopeMemberExpr", "DeclRefExpr", "UnresolvedLookupExpr"))]
+            if det_idx is None and "detach" in names_:
+                det_idx = k
+            if any(p_ in names_ for p_ in params):
+                last_use = k
+        # `push_back(std::move(copy))` is a call of an overloaded member: an UnresolvedMemberExpr without a name in clang's JSON
+        delegates = det_idx is None and not cxx.walk(m, lambda n: n.get("kind") == "CXXNewExpr") and \
+            bool(cxx.walk(m, lambda n: n.get("kind") == "UnresolvedMemberExpr"))
+        ok = delegates or (det_idx is not None and last_use is not None and last_use < det_idx)
+        sig = m.get("type", {}).get("qualType", "")
+        ctx.ob(R, "resolvo::Vector::push_back", "argument-not-read-after-detach:%s" % ("rvalue" if "&&" in sig else "const-ref"), ok,
+               "cpp/include/resolvo_vector.h",
+               "the element to append is copied / moved out of the reference parameter before detach() may release the buffer it points into")
     # copy-on-write protocol of push_back: detach(size + 1) before the placement new at end()
     n_pb = 0
     for m in cxx.walk(rec, lambda n: n.get("kind") == "CXXMethodDecl" and n.get("name") == "push_back"):
@@ -501,19 +528,26 @@ def alloc_symmetry_cxx(ctx, crate, cx):
             continue
         n_pb += 1
         stmts = [x for x in body[0].get("inner", []) if isinstance(x, dict)]
-        first_calls = cxx.walk(stmts[0], lambda n: n.get("kind") in ("CallExpr", "CXXMemberCallExpr")) if stmts else []
-        ok = False
-        detail = "first statement is not a call"
-        if first_calls:
-            c = first_calls[0]
-            nm = [x.get("member") or x.get("name") or (x.get("referencedDecl") or {}).get("name")
-                  for x in cxx.walk(c, lambda n: n.get("kind") in ("MemberExpr", "UnresolvedMemberExpr", "CXXDependentScopeMemberExpr", "DeclRefExpr", "UnresolvedLookupExpr"))]
-            args = [expr_str(a) for a in c.get("inner", [])[1:]]
-            ok = "detach" in nm and args == ["(size + 1)"]
-            detail = "first statement calls %s(%s)" % ([x for x in nm if x][:1], args)
-        has_new = bool(cxx.walk(m, lambda n: n.get("kind") == "CXXNewExpr"))
-        ctx.ob(R, "resolvo::Vector::push_back", "detach(size+1)-before-placement-new#%d" % n_pb, ok and has_new, "cpp/include/resolvo_vector.h",
-               "push_back first makes the buffer unique with room for size+1 elements, then constructs at end() (%s)" % detail)
+        new_idx = det_idx = None
+        det_args = None
+        for k, st in enumerate(stmts):
+            if new_idx is None and cxx.walk(st, lambda n: n.get("kind") == "CXXNewExpr"):
+                new_idx = k
+            for c in cxx.walk(st, lambda n: n.get("kind") in ("CallExpr", "CXXMemberCallExpr")):
+                nm = [x.get("member") or x.get("name") or (x.get("referencedDecl") or {}).get("name")
+                      for x in cxx.walk(c, lambda n: n.get("kind") in ("MemberExpr", "UnresolvedMemberExpr", "CXXDependentScopeMemberExpr", "DeclRefExpr", "UnresolvedLookupExpr"))]
+                if det_idx is None and "detach" in nm:
+                    det_idx = k
+                    det_args = [expr_str(a) for a in c.get("inner", [])[1:]]
+        if new_idx is None:
+            # an overload that constructs nothing itself hands the element to the other overload
+            ok = det_idx is None and bool(cxx.walk(m, lambda n: n.get("kind") == "UnresolvedMemberExpr"))
+            detail = "delegates to the other overload"
+        else:
+            ok = det_idx is not None and det_idx < new_idx and det_args == ["(size + 1)"]
+            detail = "detach%s precedes the placement new" % (det_args,)
+        ctx.ob(R, "resolvo::Vector::push_back", "detach(size+1)-before-placement-new#%d" % n_pb, ok, "cpp/include/resolvo_vector.h",
+               "push_back makes the buffer unique with room for size+1 elements before it constructs at end() (%s)" % detail)
     ctx.floor(R, "push_back overloads", n_pb, 2)
     # static_assert(alignof(T) <= alignof(Header)) present
     sa = cxx.walk(rec, lambda n: n.get("kind") == "StaticAssertDecl")
@@ -526,6 +560,50 @@ def alloc_symmetry_cxx(ctx, crate, cx):
         ctx.ob(R, "resolvo::Vector::drop", "static-empty-vector-not-freed", ok, "cpp/include/resolvo_vector.h",
                "every path to resolvo_vector_free has established refcount > 0 (facts on the path: %s)" %
                (", ".join(("" if pol else "!") + expr_str(e) for pol, e in (facts or []))[:160]))
+
+
+def string_assignment(ctx, cx):
+    """resolvo::String::operator=(const String&): the old contents are released (resolvo_string_drop) before `other` is read;
+    that is only safe behind a self-assignment test (as Vector::operator= has) or when the clone happens first."""
+    R = "alloc-symmetry"
+    recs = []
+    for o in cx["ast"].get("string", []):
+        recs += cxx.walk(o, lambda n: n.get("kind") == "CXXRecordDecl" and n.get("name") == "String")
+    n = 0
+    recs = [r_ for r_ in recs if cxx.walk(r_, lambda n: n.get("kind") == "CXXMethodDecl")]
+    for rec in recs[:1]:
+        for m in cxx.walk(rec, lambda n: n.get("kind") == "CXXMethodDecl" and n.get("name") == "operator="):
+            body = [x for x in m.get("inner", []) if x.get("kind") == "CompoundStmt"]
+            sig = m.get("type", {}).get("qualType", "")
+            if not body or "&&" in sig or "const resolvo::String &" not in sig and "const String &" not in sig:
+                continue
+            n += 1
+            params = [p_.get("name") for p_ in m.get("inner", []) if p_.get("kind") == "ParmVarDecl"]
+            stmts = [x for x in body[0].get("inner", []) if isinstance(x, dict)]
+            drop_idx = read_idx = guard_idx = None
+            for k, st in enumerate(stmts):
+                rs = refs2(st)
+                if drop_idx is None and "resolvo_string_drop" in rs:
+                    drop_idx = k
+                if any(p_ in rs for p_ in params) and st.get("kind") != "IfStmt":
+                    read_idx = k if read_idx is None else read_idx
+                if st.get("kind") == "IfStmt" and any(p_ in rs for p_ in params) and cxx.walk(st, lambda n: n.get("kind") == "ReturnStmt") \
+                        and cxx.walk(st, lambda n: n.get("kind") == "CXXThisExpr"):
+                    guard_idx = k if guard_idx is None else guard_idx
+            swaps = any("swap" in refs2(st) for st in stmts)
+            ok = swaps or drop_idx is None or (guard_idx is not None and guard_idx < drop_idx) or (read_idx is not None and read_idx < drop_idx)
+            ctx.ob(R, "resolvo::String::operator=", "copy-assignment-is-self-safe", ok, "cpp/include/resolvo_string.h",
+                   "the string's own buffer is not released before `other` has been read, or self-assignment is tested first")
+    ctx.floor(R, "copy assignment operators of String", n, 1)
+
+
+def refs2(n):
+    out = []
+    for x in cxx.walk(n, lambda y: y.get("kind") in ("DeclRefExpr", "UnresolvedLookupExpr", "DependentScopeDeclRefExpr", "MemberExpr")):
+        nm = (x.get("referencedDecl") or {}).get("name") or x.get("name")
+        if nm:
+            out.append(nm)
+    return out
 
 
 def _conj(pol, e, out):
@@ -615,6 +693,37 @@ def _means_positive_refcount(pol, e):
     return (op, b) in (("<=", "0"), ("<", "1"))
 
 
+def raw_pointers_read_first(ctx, crate, crs):
+    """The C `Candidates` out-structure carries raw pointers (`favored`, `locked`) next to owned vectors.  Nothing in the header
+    forbids a provider to point them at an element of the `candidates` vector it returns, so the Rust bridge has to read
+    through them *before* it consumes (and thereby frees) any of the vectors of the same structure."""
+    R = "provider-mapping"
+    n = 0
+    for b in crate.bodies:
+        if "DependencyProvider" not in b.key or not b.key.endswith("get_candidates::{closure#0}"):
+            continue
+        reads, consumes = [], []
+        for i, t in b.calls():
+            f = t.get("f")
+            if not f or not t["args"]:
+                continue
+            d = b.origin(t["args"][0])
+            names = [e.get("n") for e in d.get("proj", []) if isinstance(e, dict) and "f" in e]
+            if f["name"] == "as_ref" and "const_ptr" in f["path"] and names and names[-1] in ("favored", "locked"):
+                reads.append((i, names[-1]))
+            if f["name"] in ("into_iter", "drop", "into_vec") and names and names[-1] in ("candidates", "hint_dependencies_available", "excluded") \
+                    and t["args"][0].get("k") == "move":
+                consumes.append((i, names[-1]))
+        if not reads:
+            continue
+        n += 1
+        for ri, rn in reads:
+            late = [cn for ci, cn in consumes if ci != ri and ri in b.reachable([ci])]
+            ctx.ob(R, b.key, "raw-pointer-read-before-vectors-are-consumed:%s" % rn, not late, where_call(b, ri),
+                   "`%s` is dereferenced before any vector of the same out-structure is consumed%s" % (rn, (" (after %s)" % ", ".join(sorted(set(late)))) if late else ""))
+    ctx.floor(R, "bridge functions reading raw pointers of an out-structure", n, 1)
+
+
 def relocation_guard(ctx, crate, crs):
     """Vector::from_iter grows by moving the elements bitwise into a new buffer while the old buffer is owned by an
     IntoIterInner::UnShared(old, begin) guard whose Drop destroys the elements from `begin` on.  Whoever moves elements out of the
@@ -648,6 +757,7 @@ def relocation_guard(ctx, crate, crs):
 def alloc_symmetry_rust(ctx, crate, crs):
     R = "alloc-symmetry"
     relocation_guard(ctx, crate, crs)
+    raw_pointers_read_first(ctx, crate, crs)
     n_de = 0
     for b in crate.bodies:
         for i, t in b.calls():
